@@ -1641,11 +1641,21 @@ class PGPKey(Armorable, ParentRef, PGPObject):
 
     @property
     def revocation_signatures(self):
-        keyid, keytype = (self.fingerprint.keyid, SignatureType.KeyRevocation) if self.is_primary \
-            else (self.parent.fingerprint.keyid, SignatureType.SubkeyRevocation)
+        primary, keytype = (self, SignatureType.KeyRevocation) if self.is_primary \
+            else (self.parent, SignatureType.SubkeyRevocation)
+
+        # RFC 4880 5.2.1: a revocation counts when it was issued by the key itself or by an authorized revocation
+        # key, which the key names in a Revocation Key subpacket (5.2.3.15) of one of its self-signatures
+        keyid = primary.fingerprint.keyid
+        revokers = {keyid}
+        selfsigs = {SignatureType.DirectlyOnKey, SignatureType.Generic_Cert, SignatureType.Persona_Cert,
+                    SignatureType.Casual_Cert, SignatureType.Positive_Cert}
+        for sig in itertools.chain(primary._signatures, *[uid._signatures for uid in primary._uids]):
+            if sig.type in selfsigs and sig.signer == keyid:
+                revokers |= {rk.fingerprint.keyid for rk in sig._signature.subpackets['h_RevocationKey']}
 
         for sig in iter(sig for sig in self._signatures
-                        if all([sig.type == keytype, sig.signer == keyid, not sig.is_expired])):
+                        if all([sig.type == keytype, sig.signer in revokers, not sig.is_expired])):
             yield sig
 
     @property
